@@ -5,7 +5,7 @@ path (CSVRecordIterator over a one-line stub stream): the line is an arbitrary U
 the oracle is the independent scan in vf.refmodel.csvref.
 """
 from vf.engine import Obl
-from vf.gen import harness, indent
+from vf.gen import harness, indent, str_params
 from vf.refmodel import vectors
 
 INFO = {
@@ -28,16 +28,19 @@ def selfcheck():
 
 
 def _split_obl(dlm, L, preserve, first=None, timeout=60):
-    pre = ['len(s) == %d' % L]
+    params, pre, sexpr = str_params('s', L)
+    if not params:
+        params, pre = [('dummy', 'int')], ['dummy == 0']
     if first == 'q':
-        pre.append('s[0] == chr(34)')
+        pre.append('s_0 == 34')
     elif first == 'd':
-        pre.append('s[0] == %r' % dlm)
+        pre.append('s_0 == %d' % ord(dlm))
     elif first == 's':
-        pre.append('s[0] == chr(32)')
+        pre.append('s_0 == 32')
     elif first == 'o':
-        pre.append('s[0] != chr(34) and s[0] != %r and s[0] != chr(32)' % dlm)
+        pre.append('s_0 != 34 and s_0 != %d and s_0 != 32' % ord(dlm))
     body = indent('''
+s = ''' + sexpr + '''
 got = csv_utils.split_quoted_str(s, DLM, PRESERVE)
 exp = csvref.split_quoted(s, DLM, PRESERVE)
 if PRESERVE:
@@ -45,38 +48,51 @@ if PRESERVE:
     exp = (exp[0], exp[1], s)
 return (got, exp)
 ''')
-    src = harness('from vf.refmodel import csvref\nDLM = %r\nPRESERVE = %r\n' % (dlm, preserve), [('s', 'str')], pre, body)
+    src = harness('from vf.refmodel import csvref\nDLM = %r\nPRESERVE = %r\n' % (dlm, preserve), params, pre, body)
     name = 'split_quoted[%s,preserve=%d,len=%d%s]' % (DLM_NAMES[dlm], preserve, L, (',first=' + first) if first else '')
     return Obl(name, src, timeout=timeout, meta={'function': 'csv_utils.split_quoted_str', 'dlm': dlm, 'preserve': preserve,
                                                   'bounds': 'every Unicode string s with len(s) == %d%s' % (L, (' and first char class ' + first) if first else '')})
 
 
 def _smart_obl(dlm, policy, L, preserve, timeout=60):
+    params, pre, sexpr = str_params('s', L)
+    if not params:
+        params, pre = [('dummy', 'int')], ['dummy == 0']
     body = indent('''
+s = ''' + sexpr + '''
 got = csv_utils.smart_split(s, DLM, POLICY, PRESERVE)
 exp = csvref.smart_split(s, DLM, POLICY, PRESERVE)
 return (got, exp)
 ''')
-    src = harness('from vf.refmodel import csvref\nDLM = %r\nPOLICY = %r\nPRESERVE = %r\n' % (dlm, policy, preserve), [('s', 'str')], ['len(s) == %d' % L], body)
+    src = harness('from vf.refmodel import csvref\nDLM = %r\nPOLICY = %r\nPRESERVE = %r\n' % (dlm, policy, preserve), params, pre, body)
     name = 'smart_split[%s,%s,preserve=%d,len=%d]' % (policy, DLM_NAMES[dlm], preserve, L)
     return Obl(name, src, timeout=timeout, meta={'function': 'csv_utils.smart_split', 'policy': policy, 'dlm': dlm, 'preserve': preserve,
                                                   'bounds': 'every Unicode string s with len(s) == %d' % L})
 
 
 def _ws_rejoin_obl(L, timeout=60):
+    params, pre, sexpr = str_params('s', L)
+    if not params:
+        params, pre = [('dummy', 'int')], ['dummy == 0']
     body = indent('''
+s = ''' + sexpr + '''
 got = csv_utils.split_whitespace_separated_str(s, True)
 has_nonspace = len(s.replace(' ', '')) > 0
 return ((' '.join(got) if has_nonspace else s, [f.strip(' ') for f in got]), (s, csvref.split_whitespace(s)))
 ''')
-    src = harness('from vf.refmodel import csvref\n', [('s', 'str')], ['len(s) == %d' % L], body)
+    src = harness('from vf.refmodel import csvref\n', params, pre, body)
     return Obl('whitespace_preserving_rejoin[len=%d]' % L, src, timeout=timeout,
                meta={'function': 'csv_utils.split_whitespace_separated_str(preserve)', 'bounds': 'every Unicode string s with len(s) == %d' % L})
 
 
 def _reader_obl(dlm, policy, L, timeout=90):
     # public path: one physical line (no CR / LF in it), read through the real record iterator
+    params, pre, sexpr = str_params('s', L)
+    if not params:
+        params, pre = [('dummy', 'int')], ['dummy == 0']
+    pre += ['%s != 10 and %s != 13' % (n, n) for n, _t in params if n != 'dummy']
     body = indent('''
+s = ''' + sexpr + '''
 try:
     it = rbql_csv.CSVRecordIterator(stubs.PieceIn([s]), None, DLM, POLICY)
     recs = it.get_all_records()
@@ -93,8 +109,7 @@ else:
     exp = ('ok', exp_recs, exp_warns)
 return (got, exp)
 ''')
-    pre = ['len(s) == %d' % L, 'chr(10) not in s and chr(13) not in s']
-    src = harness('from vf.refmodel import csvref\nDLM = %r\nPOLICY = %r\n' % (dlm, policy), [('s', 'str')], pre, body)
+    src = harness('from vf.refmodel import csvref\nDLM = %r\nPOLICY = %r\n' % (dlm, policy), params, pre, body)
     name = 'reader_one_line[%s,%s,len=%d]' % (policy, DLM_NAMES[dlm], L)
     return Obl(name, src, timeout=timeout, meta={'function': 'rbql_csv.CSVRecordIterator.get_all_records/get_warnings', 'policy': policy, 'dlm': dlm,
                                                   'bounds': 'every Unicode string s without CR/LF with len(s) == %d' % L})
